@@ -16,7 +16,7 @@ def gen_config(rng, tier):
     ops = {"new": 1.0, "measure": 3.0}
     for k, w in (("rot", 2.0), ("tmap", 1.5), ("gate", 1.5), ("copy", 0.7), ("setr", 0.7),
                  ("remeasure", 1.0), ("postselect", 1.5), ("mlayer", 1.0), ("cnew", 0.8),
-                 ("ctake", 0.5), ("ccompile", 0.3), ("cfwd", 1.5), ("cbwd", 1.0), ("diag", 0.4), ("relayout", 0.4)):
+                 ("ctake", 0.5), ("ccompile", 0.3), ("cfwd", 1.5), ("cbwd", 1.0), ("diag", 0.4), ("relayout", 0.4), ("tmapstate", 0.6)):
         if rng.random() < 0.7:
             ops[k] = w * rng.choice([0.5, 1.0, 2.0])
     faults = [f for f in ("coin_force", "remeasure", "view_operand", "rejected_op") if rng.random() < 0.7]
